@@ -1,0 +1,16 @@
+//go:build verif
+
+package core
+
+// Verification hooks (add-only, build tag "verif"): exported wrappers around
+// unexported functions, with no change of behaviour.
+
+// VerifSynchronizable exposes (*Entry).synchronizable.
+func (e *Entry) VerifSynchronizable() *Entry {
+	return e.synchronizable()
+}
+
+// VerifDiff exposes diff(path, base, target).
+func VerifDiff(path string, base, target *Entry) []*Change {
+	return diff(path, base, target)
+}
